@@ -13,6 +13,6 @@ set_option maxRecDepth 100000 in
 set_option maxHeartbeats 4000000 in
 /-- the kernel's evaluation of the whole standard table against the specification -/
 theorem standard_table_ok :
-    tableOk LookupId.standard.builder.finish standardKey signatures5 = true := by decide +kernel
+    tableOk LookupId.standard.builder.finish standardKey categoryLabel signatures5 = true := by decide +kernel
 
 end PK
